@@ -36,11 +36,17 @@ Low(ms, i) == SumS([j \in 1..(i - 1) |-> Len(ms[j].d)])
 Up(ms, i) == Low(ms, i) + Len(ms[i].d)
 
 \* ---- the code: one argsort of the concatenation, any tie order ------------------------------
+\* Only the SET inds = argsort(D)[:n_min] is used (membership counts per block).  The possible sets
+\* are the k-subsets of positions with nothing outside smaller than something inside ...
+Selections(D, k) == {s \in SUBSET (1..Len(D)) :
+                       /\ Cardinality(s) = k
+                       /\ \A a \in s : \A b \in (1..Len(D)) \ s : D[a] <= D[b]}
+CountsOfSel(ms, s) == [i \in 1..Len(ms) |-> Cardinality({q \in s : q > Low(ms, i) /\ q <= Up(ms, i)})]
+MechCounts(ms) == {CountsOfSel(ms, s) : s \in Selections(Concat(ms), NMin(ms))}
+\* ... which are exactly the k-prefixes of the sorting permutations (checked by TLC for short D)
 Perms(n) == {p \in [1..n -> 1..n] : \A i, j \in 1..n : i # j => p[i] # p[j]}
 SortPerms(D) == {p \in Perms(Len(D)) : \A i \in 1..(Len(D) - 1) : D[p[i]] <= D[p[i + 1]]}
-CountsOfPerm(ms, p) ==
-  [i \in 1..Len(ms) |-> Cardinality({q \in 1..NMin(ms) : p[q] > Low(ms, i) /\ p[q] <= Up(ms, i)})]
-MechCounts(ms) == {CountsOfPerm(ms, p) : p \in SortPerms(Concat(ms))}
+PrefixSets(D, k) == {{p[q] : q \in 1..k} : p \in SortPerms(D)}
 
 \* ---- the definition: each model's share of the n_min jointly smallest discrepancies -----------
 \* Cut = the n_min-th smallest value.  Everything below it is in, the values equal to it fill the
